@@ -213,7 +213,9 @@ theorem changed_file_reread (W : World) (names : List Name) (files : Name → Fi
     let r := exec W none (f + 1) (.ltc n) s
     s.entry n = some e → e.stamp ≠ some (s.files n).mtime → r.1 = none →
     ∃ e', r.2.entry n = some e' ∧ e'.stamp = some (s.files n).mtime ∧
-      e'.content.map (·.1) = (s.files n).items ∧ Event.readFile n ∈ r.2.log := by
+      e'.content.map (·.1) = (s.files n).items ∧ Event.readFile n ∈ r.2.log ∧
+      -- the recorded dependency timestamps name ALL transitive imports (`get_import_order`), not only the direct ones
+      (initState names files).lib.order e.imports = some (e'.deps.map (·.1)) := by
   intro s r he hch hok
   have hi : Inv W (initState names files).lib s := run_inv W _ fuel h _ hh (init_inv W names files)
   exact ltcBody_reread W _ (exec_post W _ none f) n e hi he hch hok
@@ -224,6 +226,28 @@ example :
     ∧ (exec exWorld none 50 (.ltc 1) { s with log := [] }).2.log = [.readFile 1]
     ∧ (exec exWorld none 50 (.ltc 1) s).1 = none := by
   refine ⟨⟨_, rfl, rfl⟩, rfl, by decide, by decide⟩
+
+/-- chain 1 ← 2 ← 3 (3 imports only 2): item 30 of theory 3 parses only when item 10 of theory 1 is visible -/
+def chWorld : World :=
+  { parse := fun i ctx => if i = 30 then (if 10 ∈ ctx then .ok else .err) else .ok
+    lazyOf := fun _ => none
+    body := fun _ => [] }
+
+def chFiles : Name → File := fun n =>
+  if n = 1 then { imports := [], items := [10], mtime := 50 }
+  else if n = 2 then { imports := [1], items := [20], mtime := 50 }
+  else { imports := [2], items := [30], mtime := 50 }
+
+/-- Concrete instance with an EDIT (not covered by the general theorems): the far end of an import chain is
+    cached, the file that is imported only INDIRECTLY is replaced by different content carrying an OLDER
+    timestamp, the middle file is untouched; the next load re-parses all three and yields the specification of
+    the new files (item 30 no longer parses). -/
+theorem indirect_edit_older_mtime_example :
+    let s := run chWorld 50 [.load 3 .none none, .edit 1 [] [11] 7] (initState [1, 2, 3] chFiles)
+    (exec chWorld none 50 (.load 3 .none) s).2.thy = some [11, 20]
+    ∧ (exec chWorld none 50 (.load 3 .none) { s with log := [] }).2.log = [.readFile 1, .readFile 2, .readFile 3]
+    ∧ specLoad chWorld s.lib 5 3 .none = .ok [11, 20] :=
+  ⟨by decide, by decide, by rfl⟩
 
 /-! ### known finding: the imports of an edited file are not re-read -/
 
